@@ -38,6 +38,7 @@ RULE = (
     "substitution laws (implementation side only); non-trivial = at least one operand is not atomic; distinct by term text"
 )
 ASSUMPTIONS = [
+    "values of classes outside the Lean term language (TypedDictValue, DictIncompleteValue, CallableValue, exact type[...]) are covered by an implementation-only law stream (`ext`): pairs equal by construction but built differently, bare and nested",
     "hash(a) == hash(b) is modelled structurally (no accidental collisions); object identity is invisible to the model, the harness builds a fresh Value for every operand occurrence",
     "TypeVarValue / TypedDict / Callable / dict-incomplete values are outside the Lean term language: the substitution laws and the laws on those constructors are searched on the implementation only",
 ]
@@ -339,12 +340,103 @@ def subst_finish(ctx, job, out):
         cand("exception in substitution laws: %r" % (e,), "total")
 
 
+# ------------------------------------------------------------------ constructors outside the Lean term language
+def ext_pairs(rng, n):
+    """Pairs (kind, build_a, build_b) of Values that are equal by construction but built differently
+    (TypedDict key order, separately built signatures, ...), bare and wrapped. Implementation-only laws."""
+    from pyanalyze.signature import ParameterKind, SigParameter, Signature
+    from pyanalyze.value import (AnnotatedValue, CallableValue, DictIncompleteValue, GenericValue, KnownValue, KVPair,
+                                 MultiValuedValue, SequenceValue, SubclassValue, TypedDictEntry, TypedDictValue, TypedValue)
+    leaf = [TypedValue(int), TypedValue(str), KnownValue(1), TypedValue(float), KnownValue(None)]
+    out = []
+    for _ in range(n):
+        kind = rng.choice(["typeddict", "typeddict", "typeddict", "dictinc", "callable", "subclass_exact"])
+        if kind == "typeddict":
+            keys = rng.sample(["a", "b", "c", "d"], rng.choice([2, 2, 3, 4]))
+            spec = {k: (rng.choice(leaf), rng.random() < 0.7, rng.random() < 0.2) for k in keys}
+            extra = rng.choice([None, None, TypedValue(int)])
+            perm = list(keys)
+            rng.shuffle(perm)
+
+            def mk(order, spec=spec, extra=extra):
+                items = {k: TypedDictEntry(spec[k][0], required=spec[k][1], readonly=spec[k][2]) for k in order}
+                return TypedDictValue(items, extra_keys=extra) if extra is not None else TypedDictValue(items)
+
+            base = (lambda keys=keys, mk=mk: mk(keys), lambda perm=perm, mk=mk: mk(perm))
+            desc = "TypedDict keys %s vs %s" % (keys, perm)
+        elif kind == "dictinc":
+            keys = rng.sample(["a", "b", "c"], 2)
+            vt = rng.choice(leaf)
+            base = (lambda: DictIncompleteValue(dict, [KVPair(KnownValue(k), vt) for k in keys]),) * 2
+            desc = "DictIncompleteValue %s" % keys
+        elif kind == "callable":
+            pt, rt = rng.choice(leaf), rng.choice(leaf)
+            base = (lambda: CallableValue(Signature.make([SigParameter("x", ParameterKind.POSITIONAL_ONLY, annotation=pt)], rt)),) * 2
+            desc = "CallableValue (%s) -> %s" % (pt, rt)
+        else:
+            base = (lambda: SubclassValue(TypedValue(int), exactly=True),) * 2
+            desc = "type[int] exactly"
+        wrap = rng.choice(["bare", "bare", "list", "annotated", "union", "tuple", "dictval"])
+        w = {
+            "bare": lambda v: v,
+            "list": lambda v: GenericValue(list, [v]),
+            "annotated": lambda v: AnnotatedValue(v, [KnownValue("meta")]),
+            "union": lambda v: MultiValuedValue([v, KnownValue(None)]),
+            "tuple": lambda v: SequenceValue(tuple, [(False, TypedValue(int)), (False, v)]),
+            "dictval": lambda v: GenericValue(dict, [TypedValue(str), v]),
+        }[wrap]
+        out.append((desc + " in " + wrap, (lambda base=base, w=w: w(base[0]())), (lambda base=base, w=w: w(base[1]()))))
+    return out
+
+
+def ext_stream(ctx):
+    from pyanalyze.value import CanAssignError, MultiValuedValue, unite_values
+    checker = pya.make_checker()
+    for desc, fa, fb in ext_pairs(ctx.rng, ctx.n(400, 4000)):
+        ctx.count(1, ext=1)
+        ctx.nontriv("ext|" + desc)
+        case = {"ext": desc}
+
+        def cand(what, law):
+            ctx.candidate(dict(case, law=law), what, cls=None, conforms=True, stream="law-" + law)
+
+        try:
+            a, b = fa(), fb()
+            if not (a == b):
+                continue  # not equal on this tree: nothing to demand
+            if hash(a) != hash(b):
+                cand("a == b but hash(a) != hash(b): " + desc, "eq-hash")
+            if not (unite_values(fa(), fb()) == a):
+                cand("a == b but unite(a, b) != a: " + desc, "merge-equal")
+            if not (unite_values(fa(), fa()) == a):
+                cand("unite(a, a) != a: " + desc, "idempotent")
+            other = KnownValueOf(7)
+            if not (unite_values(fa(), other) == unite_values(fb(), other)) or not (
+                unite_values(fa(), other) == unite_values(other, fa())
+            ):
+                cand("uniting does not respect equality / order of operands: " + desc, "commutative")
+            u = unite_values(fa(), fb(), other)
+            if isinstance(u, MultiValuedValue) and any(isinstance(x, MultiValuedValue) for x in u.vals):
+                cand("nested union in the result", "flat")
+            if isinstance(u.can_assign(fa(), checker), CanAssignError):
+                cand("the union does not accept its operand: " + desc, "accepts-operand")
+        except Exception as e:
+            cand("exception in the laws on %s: %r" % (desc, e), "total")
+
+
+def KnownValueOf(x):
+    from pyanalyze.value import KnownValue
+    return KnownValue(x)
+
+
 def run(ctx):
     evaluate(ctx, corpus() + gen_triples(ctx))
+    ext_stream(ctx)
 
 
 def run_impl_only(ctx):
     evaluate(ctx, corpus() + gen_triples(ctx), with_model=False)
+    ext_stream(ctx)
 
 
 def replay(ctx, data):
